@@ -149,9 +149,14 @@ func lookupMatches(op *Op, res *OpRes, st state) (bool, string) {
 		return false, want.Key()
 	}
 	if ext != nil {
-		for _, ok := range res.Is {
-			if !ok {
-				return false, want.Key() + " with Is() true for its type and every alias"
+		names := ext.Names()
+		for i, got := range res.Is {
+			wantIs := false
+			for _, nm := range names {
+				wantIs = wantIs || nm == res.IsNames[i]
+			}
+			if got != wantIs {
+				return false, fmt.Sprintf("%s with Is(%q)=%v", want.Key(), res.IsNames[i], wantIs)
 			}
 		}
 	}
